@@ -254,7 +254,7 @@ namespace cs
             h.elements = *sp ? count_elems(**sp) : 0;
             h.empty    = !*sp;
             h.destroy  = [sp] { sp->reset(); };
-            h.reset    = [sp] { sp->reset(); };
+            h.reset    = [sp] { *sp = nullptr; }; // ("same as reset()")
             h.contents = [sp]
             {
                 std::vector<int> v;
@@ -736,7 +736,12 @@ namespace cs
                     if (h.type == 9)
                         h.destroy();
                     else
-                        check_destroy(c, h, o.arg(1) % 2 ? "reset()" : "destruction");
+                    {
+                        bool by_assignment = o.arg(1) % 2 && h.reset;
+                        if (by_assignment)
+                            h.destroy = h.reset; // joint_ptr = nullptr
+                        check_destroy(c, h, by_assignment ? "assignment of nullptr" : "reset()");
+                    }
                 }
                 else if (o.kind == "sj")
                 {
